@@ -846,14 +846,6 @@ impl Engine for C09 {
                 c.push(s);
             }
         }
-        // only two hash seeds
-        if sc.hash_seeds.len() > 2 {
-            for i in 1..sc.hash_seeds.len() {
-                let mut s = sc.clone();
-                s.hash_seeds = vec![sc.hash_seeds[0], sc.hash_seeds[i]];
-                c.push(s);
-            }
-        }
         // drop a file
         if sc.files.len() > 1 {
             for i in 0..sc.files.len() {
@@ -933,6 +925,14 @@ impl Engine for C09 {
                 }
             }
         }
+        // only two hash seeds
+        if sc.hash_seeds.len() > 2 {
+            for i in 1..sc.hash_seeds.len() {
+                let mut s = sc.clone();
+                s.hash_seeds = vec![sc.hash_seeds[0], sc.hash_seeds[i]];
+                c.push(s);
+            }
+        }
         c
     }
     fn sample(&self, sc: &Sc) -> Value {
@@ -941,6 +941,9 @@ impl Engine for C09 {
             "modes": sc.modes, "symbol_base": sc.symbol_base, "summarize_before": sc.summarize_before,
             "fx_lookups_over_shared_cache": sc.fx.is_some(), "hash_seeds": sc.hash_seeds, "max_read": if sc.max_read == usize::MAX { json!("unlimited") } else { json!(sc.max_read) },
         })
+    }
+    fn minimise_seconds(&self) -> u64 {
+        40
     }
     fn level(&self) -> &'static str {
         "exploration"
